@@ -227,6 +227,14 @@ type goBuilder struct {
 	fail   string
 	tparam map[string]string // type parameter name → Go type used
 	sent   map[string]bool
+	ints   []int64 // element values seen while building the inputs
+}
+
+func smtIntLit(v int64) string {
+	if v < 0 {
+		return fmt.Sprintf("(- %d)", -v)
+	}
+	return fmt.Sprint(v)
 }
 
 func (g *goBuilder) name(prefix string) string {
@@ -364,6 +372,7 @@ func (g *goBuilder) value(term string, t types.Type, role string, depth int) (st
 		if !ok {
 			return "", false
 		}
+		g.ints = append(g.ints, n)
 		return fmt.Sprint(n), true
 	}
 	g.fail = "unsupported input sort " + sort + " (" + t.String() + ")"
@@ -464,9 +473,42 @@ func (g *goBuilder) callback(term string, sig *types.Signature, role string) (st
 		// returns the recorded answers of the model, then true
 		return fmt.Sprintf("%s(func(v int) bool { govcYields = append(govcYields, v); return true })", ft), true
 	case "pred":
-		// table from the model over small values is not extracted yet: keep even values
-		g.fail = "predicate callbacks are not concretised yet"
-		return "", false
+		// the model's interpretation of holds(f, v), tabulated over the values that occur in the inputs
+		if sig.Params().Len() != 1 {
+			g.fail = "predicate callback with several parameters"
+			return "", false
+		}
+		ps := g.fv.sortOf(sig.Params().At(0).Type())
+		name := "holds$" + cleanName(ps)
+		if !g.fv.declared[name] {
+			return fmt.Sprintf("%s(func(v int) bool { return false })", ft), true
+		}
+		fval, ok := g.val1(term)
+		if !ok {
+			return "", false
+		}
+		cands := map[int64]bool{}
+		for v := int64(-2); v <= 12; v++ {
+			cands[v] = true
+		}
+		for _, v := range g.ints {
+			cands[v] = true
+		}
+		var trues []string
+		for v := range cands {
+			r, ok := g.val1(fmt.Sprintf("(%s %s %s)", name, fval, smtIntLit(v)))
+			if !ok {
+				return "", false
+			}
+			if r == "true" {
+				trues = append(trues, fmt.Sprint(v))
+			}
+		}
+		sort.Strings(trues)
+		if len(trues) == 0 {
+			return fmt.Sprintf("%s(func(v int) bool { return false })", ft), true
+		}
+		return fmt.Sprintf("%s(func(v int) bool { switch v { case %s: return true }; return false })", ft, strings.Join(trues, ", ")), true
 	case "report":
 		return fmt.Sprintf("%s(func(v int, pos int) {})", ft), true
 	}
@@ -537,6 +579,9 @@ func replayModel(w *World, fv *FV, o *Obligation, scratch string, info map[strin
 	var args []string
 	recv := ""
 	model := map[string]string{}
+	cur := map[string]string{}
+	old := map[string]string{}
+	var paramDecls []string
 	getEntry := func(id *ast.Ident, role string) (string, bool) {
 		obj := fv.info.Defs[id]
 		t, ok := fv.entry.vars[obj]
@@ -547,6 +592,11 @@ func replayModel(w *World, fv *FV, o *Obligation, scratch string, info map[strin
 		v, ok := g.value(t.S, obj.Type(), role, 0)
 		if ok {
 			model[id.Name] = v
+			pv := "p_" + id.Name
+			paramDecls = append(paramDecls, fmt.Sprintf("var %s %s = %s", pv, g.goType(obj.Type()), v), fmt.Sprintf("o_%s := govcCopy(%s)", id.Name, pv), fmt.Sprintf("_ = o_%s", id.Name))
+			cur[id.Name] = pv
+			old[id.Name] = "o_" + id.Name
+			return pv, true
 		}
 		return v, ok
 	}
@@ -564,6 +614,10 @@ func replayModel(w *World, fv *FV, o *Obligation, scratch string, info map[strin
 			role := ""
 			if fv.fc != nil {
 				role = fv.fc.Roles[n.Name]
+			}
+			if n.Name == "_" {
+				args = append(args, "*new("+g.goType(fv.info.Defs[n].Type())+")")
+				continue
 			}
 			v, ok := getEntry(n, role)
 			if !ok {
@@ -586,8 +640,6 @@ func replayModel(w *World, fv *FV, o *Obligation, scratch string, info map[strin
 	call := fd.Name.Name
 	if recv != "" {
 		call = recv + "." + call
-	} else if fd.Type.TypeParams != nil {
-		// explicit instantiation keeps inference out of the picture
 	}
 	if fd.Type.Params != nil && len(fd.Type.Params.List) > 0 {
 		last := fd.Type.Params.List[len(fd.Type.Params.List)-1]
@@ -596,15 +648,33 @@ func replayModel(w *World, fv *FV, o *Obligation, scratch string, info map[strin
 		}
 	}
 	callExpr := fmt.Sprintf("%s(%s)", call, strings.Join(args, ", "))
+	sig := fv.fi.Obj.Type().(*types.Signature)
+	var results []string
+	for i := 0; i < sig.Results().Len(); i++ {
+		results = append(results, fmt.Sprintf("r%d", i))
+	}
+	checks, compiled, skipped := fv.compileEnsures(cur, old, results)
+	info["postconditions_compiled"] = compiled
+	info["postconditions_not_compiled"] = skipped
 	var b strings.Builder
-	fmt.Fprintf(&b, "package %s\n\nimport (\n\t\"fmt\"\n\t\"testing\"\n\t\"time\"\n)\n\nvar govcYields []int\n\n", fv.fi.Pkg.Name)
+	fmt.Fprintf(&b, "package %s\n\nimport (\n\t\"fmt\"\n\t\"reflect\"\n\t\"testing\"\n\t\"time\"\n\t\"unsafe\"\n)\n\nvar govcYields []int\nvar _ = reflect.ValueOf\nvar _ unsafe.Pointer\n%s\n", fv.fi.Pkg.Name, goReplaySupport)
 	fmt.Fprintf(&b, "// Replay of obligation %s\n// %s\nfunc TestGovcReplay(t *testing.T) {\n", o.Name, o.Desc)
 	for _, d := range g.decls {
 		fmt.Fprintf(&b, "\t%s\n", d)
 	}
+	for _, d := range paramDecls {
+		fmt.Fprintf(&b, "\t%s\n", d)
+	}
+	for i := 0; i < sig.Results().Len(); i++ {
+		fmt.Fprintf(&b, "\tvar r%d %s\n\t_ = r%d\n", i, g.goType(sig.Results().At(i).Type()), i)
+	}
+	assign := ""
+	if len(results) > 0 {
+		assign = strings.Join(results, ", ") + " = "
+	}
 	fmt.Fprintf(&b, "\tallowedToPanic := %s\n", allowed)
-	fmt.Fprintf(&b, "\tdone := make(chan string, 1)\n\tgo func() {\n\t\tdefer func() {\n\t\t\tif r := recover(); r != nil {\n\t\t\t\tdone <- fmt.Sprintf(\"panic: %%v\", r)\n\t\t\t}\n\t\t}()\n\t\t%s\n\t\tdone <- \"returned\"\n\t}()\n", callExpr)
-	fmt.Fprintf(&b, "\tselect {\n\tcase r := <-done:\n\t\tfmt.Println(\"GOVC-OUTCOME\", r)\n\t\tif r != \"returned\" && !allowedToPanic {\n\t\t\tt.Fatalf(\"VIOLATION-CONFIRMED unexpected %%s\", r)\n\t\t}\n\t\tif r == \"returned\" && allowedToPanic {\n\t\t\tt.Fatalf(\"VIOLATION-CONFIRMED returned normally where the contract demands a panic\")\n\t\t}\n\tcase <-time.After(10 * time.Second):\n\t\tt.Fatalf(\"VIOLATION-CONFIRMED no termination within 10s\")\n\t}\n}\n")
+	fmt.Fprintf(&b, "\tdone := make(chan string, 1)\n\tgo func() {\n\t\tdefer func() {\n\t\t\tif r := recover(); r != nil {\n\t\t\t\tdone <- fmt.Sprintf(\"panic: %%v\", r)\n\t\t\t}\n\t\t}()\n\t\t%s%s\n\t\tdone <- \"returned\"\n\t}()\n", assign, callExpr)
+	fmt.Fprintf(&b, "\tselect {\n\tcase r := <-done:\n\t\tfmt.Println(\"GOVC-OUTCOME\", r)\n\t\tif r != \"returned\" && !allowedToPanic {\n\t\t\tt.Fatalf(\"VIOLATION-CONFIRMED unexpected %%s\", r)\n\t\t}\n\t\tif r == \"returned\" && allowedToPanic {\n\t\t\tt.Fatalf(\"VIOLATION-CONFIRMED returned normally where the contract demands a panic\")\n\t\t}\n\t\tif r != \"returned\" {\n\t\t\treturn\n\t\t}\n\tcase <-time.After(10 * time.Second):\n\t\tt.Fatalf(\"VIOLATION-CONFIRMED no termination within 10s\")\n\t}\n%s}\n", checks)
 	src := b.String()
 	info["go_test"] = src
 	info["go_test_pkg"] = shortPkg(fv.fi.Pkg.PkgPath)
